@@ -58,6 +58,9 @@ POSITIONS = [
     ("data_q", 'DATA "{}" , 2'),
     ("data_u", "DATA {} , 2"),
     ("rem", "REM {}"),
+    ("rem_after_stmt", "CLS : REM {}"),
+    ("tick_after_stmt", "B = 2 ' {}"),
+    ("rem_in_then", "IF B = 1 THEN REM {}"),
     ("tick", "' {}"),
     ("unterminated", 'A$ = "{}'),
     ("rem_quote", 'REM " {}'),
@@ -113,7 +116,7 @@ def gen(run):
             continue
         line = tpl.replace("{}", d["h"])
         feats = ["hostile", "pos:" + pname]
-        if re.search(r"(?i)\bRUN\s+\w+", d["h"]) and pname in ("rem", "tick", "rem_quote", "tick_quote", "rem_2quote"):
+        if re.search(r"(?i)\bRUN\s+\w+", d["h"]) and pname in ("rem", "tick", "rem_quote", "tick_quote", "rem_2quote", "rem_after_stmt", "tick_after_stmt", "rem_in_then"):
             feats.append("comment-contains-RUN")
         nq = line.count('"')
         if nq % 2 == 1:
@@ -122,6 +125,10 @@ def gen(run):
             feats.append("user-text-placeholder")
         text = K.program_for([d["with"], line])
         cases.append({"text": text, "size": d["size"], "procname": "prog", "origin": f"hostile:{pname}:{d['h']}", "features": feats, "content": d["h"]})
+        if d["size"] == 80:
+            # the same with unused labels filtered (remarks then start in the first column) and with pre-initialisation
+            cases.append({"text": text, "size": 80, "procname": "prog", "origin": f"hostile-l:{pname}:{d['h']}", "features": feats + ["filter"], "content": d["h"],
+                          "extra_opts": {"filter_unused_linenum": True, "initialize_vars": True}})
     return cases
 
 
@@ -144,8 +151,9 @@ def split_bundle(out):
 def judge(c):
     v = []
     pn_in = c["procname"]
-    r = tool.convert(c["text"], output_dependencies=True, procname=pn_in, default_str_storage=c["size"])
-    r0 = tool.convert(c["text"], output_dependencies=False, default_str_storage=c["size"])
+    extra = c.get("extra_opts") or {}
+    r = tool.convert(c["text"], output_dependencies=True, procname=pn_in, default_str_storage=c["size"], **extra)
+    r0 = tool.convert(c["text"], output_dependencies=False, default_str_storage=c["size"], **extra)
     if not r.ok or not r0.ok:
         if r.kind != r0.kind:
             v.append(("acceptance-differs", f"with dependencies: {r.kind}; without: {r0.kind}"))
@@ -226,6 +234,67 @@ def judge(c):
     return v, out
 
 
+def placeholder_verdicts(out, size):
+    """every placeholder site of every bundled library procedure reads ': STRING[size]' (': STRING' for 32)"""
+    v = []
+    lib = library()
+    parts = split_bundle(out)
+    if "<<>>" in "\n".join(t for _, t in parts[:-1]):
+        v.append(("placeholder-survives", "a string-size placeholder is left in the bundled library"))
+    want = "STRING" if size == 32 else f"STRING[{size}]"
+    for n, t in parts[:-1]:
+        if n not in lib["procs"]:
+            continue
+        raw = re.search(r"(?im)^procedure\s+%s\s*$" % re.escape(n), lib["raw"])
+        start = raw.end()
+        nxt = re.search(r"(?im)^procedure\s+\S+\s*$", lib["raw"][start:])
+        seg = lib["raw"][start: start + nxt.start()] if nxt else lib["raw"][start:]
+        nsites = len(re.findall(r"(?i):\s*STRING<<>>", seg))
+        if nsites:
+            found = len(re.findall(r"(?i):\s*" + re.escape(want) + r"(?![\[\w<])", t))
+            if found < nsites:
+                v.append(("placeholder-wrong-size", f"procedure {n}: {nsites} placeholder sites, {found} read ': {want}'"))
+    return v
+
+
+def cli_cases(run, scratch):
+    """the same bundle through the file entry points (convert_file / the command line), where the size comes from -s"""
+    import importlib
+    import io
+    import sys
+    m = importlib.import_module("coco.decb_to_b09")
+    d = os.path.join(scratch, "cli13")
+    os.makedirs(d, exist_ok=True)
+    text = '10 A$=STRING$(40,"*"):PLAY "CDE":HDRAW "U1"\n20 PRINT INSTR(1,A$,"*");HEX$(1)\n'
+    out = []
+    for size in (32, 33, 80, 255):
+        for extra in ([], ["-l"], ["-z", "-w"]):
+            run.states += 1
+            run.transitions += 1
+            run.evaluations += 1
+            inp, outp = os.path.join(d, "prog.bas"), os.path.join(d, "prog.b09")
+            with open(inp, "w") as f:
+                f.write(text)
+            old = sys.stdout, sys.stderr
+            err = None
+            try:
+                sys.stdout, sys.stderr = io.StringIO(), io.StringIO()
+                try:
+                    m.start(["-s", str(size)] + extra + [inp, outp])
+                except SystemExit as e:
+                    err = f"SystemExit({e.code})"
+                except Exception as e:  # noqa
+                    err = type(e).__name__
+            finally:
+                sys.stdout, sys.stderr = old
+            if err:
+                continue
+            got = open(outp, "r", newline="").read().replace("\r\n", "\n").replace("\r", "\n")
+            for sym, detail in placeholder_verdicts(got, size):
+                out.append((sym, f"decb_to_b09 -s {size} {' '.join(extra)}: {detail}", size))
+    return out
+
+
 def work(chunk):
     return [judge(c)[0] for c in chunk]
 
@@ -250,12 +319,14 @@ def run(run):
                 feats = set(c["features"])
                 if c["procname"] in library()["graph"]:
                     feats.add("procname-shadows-library")
-                run.violation(sym, feats, {k: c.get(k) for k in ("text", "size", "procname", "origin", "content")}, f"{c['origin']} size={c['size']} procname={c['procname']}: {detail}")
+                run.violation(sym, feats, {k: c.get(k) for k in ("text", "size", "procname", "origin", "content", "extra_opts")}, f"{c['origin']} size={c['size']} procname={c['procname']}: {detail}")
+    for sym, detail, size in cli_cases(run, run.scratch_dir()):
+        run.violation(sym, {"cli", "storage:%d" % size}, {"cli": True, "size": size}, detail)
     run.distinct_n = len(keys)
     run.count("library_procedures", len(library()["graph"]))
     run.count("library_placeholder_sites", library()["placeholders"])
 
 
 def replay(case):
-    v, out = judge({"text": case["text"], "size": case["size"], "procname": case["procname"], "features": [], "content": case.get("content")})
+    v, out = judge({"text": case["text"], "size": case["size"], "procname": case["procname"], "features": [], "content": case.get("content"), "extra_opts": case.get("extra_opts")})
     return {"violations": [list(x) for x in v]}
